@@ -1791,7 +1791,7 @@ class Tensor:
         #
         # Create Tensor from rank_ids and root fiber
         #
-        tensor = Tensor.fromFiber(rank_ids, root, shape)
+        tensor = Tensor.fromFiber(rank_ids, root, shape, default=self.getDefault())
         tensor.setName(self.getName() + "+unflattened")
         tensor.setColor(self.getColor())
         tensor.setMutable(self.isMutable())
